@@ -79,7 +79,7 @@ def run(env: Env) -> Outcome:
                 "memory/sqlite store, 1/3 with scheduler-controlled store suspension, 1/4 with work longer than idle_timeout and retries); "
                 "non-trivial = at least one release and one reload; distinct by (case, schedule)")
     LP.run_malformed(out)
-    LP.run_inprocess(env, out, "C36", env.budget(30, 2400), WITNESSES)
-    LP.run_row_corr(env, out, env.budget(200, 20000), "C36")
+    LP.run_inprocess(env, out, "C36", env.budget(24, 2400), WITNESSES)
+    LP.run_row_corr(env, out, env.budget(150, 20000), "C36")
     _dbos_never_released(out)
     return out
